@@ -45,6 +45,7 @@ import Proofs.FormatCall2Lex
 
 import Proofs.FormatPipeParse
 import Proofs.FormatFileLex
+import Proofs.FormatExpRangeText
 
 namespace Props.C09
 open Martian.Format
@@ -1356,5 +1357,144 @@ theorem file_near_misses :
   set_option maxRecDepth 100000 in decide +kernel
 
 end WholeFile
+
+/-! ## value expressions: ACCEPTED SOURCE TEXTS
+
+The theorems of section ValueExpressions quantify over expressions satisfying `wf`.  This
+section closes the gap to "every source text the parser accepts": the RANGE of the tokenizer
+(`range_lex`, `numTok_prefix`) and of the reader (`parse_produces_wfRaw`: no hypothesis at all)
+show that whatever `ParseValExp` returns is `wf` — up to exactly the two recorded findings:
+F6b (a string literal with an escape for an invalid UTF-8 byte, `"\xff"`) and F26 (a float
+literal denoting negative zero, `-0.0`), which are GENUINE exceptions of the real code (negative
+witnesses below), so they appear as the hypotheses `strsValid e` and `noNegZero e`.
+
+Model: `Martian.FormatExpText`.  `parseValExp` is the raw reader (float leaves keep the token
+text); Go builds a `float64` and prints it with `strconv.AppendFloat(v, 'g', -1, 64)`.  strconv is
+trusted: `g` stands for `fun t => FormatFloat(ParseFloat(t, 64), 'g', -1, 64)` and only `GOK g` is
+assumed about it; `parseValExpG g` = `Parser.ParseValExp` with the float leaves as Go holds them. -/
+section AcceptedTexts
+open Martian.FormatExp
+
+/-- **Range of the tokenizer.**  For EVERY input the tokenizer accepts, every token it returns is
+in `tokOK`: a NUM_INT text is, on its own, one NUM_INT token whose value `parseInt` accepts (an
+`int64`); a NUM_FLOAT text is, on its own, one NUM_FLOAT token the range check accepts; a
+LITSTRING text is unquoted by `unquoteBytes` without a panic; an `id` text is an identifier
+(`isIdent`: not a reserved word); a punctuation byte is one of the 14. -/
+theorem range_lex (src : List UInt8) (ts : List Tok) (h : lexAll src = some ts) :
+    ∀ tok ∈ ts, tokOK tok = true :=
+  range_lexAll src ts h
+
+/-- **Prefix lemma.**  The numeric token found at the head of ANY text is, run on its own, the
+same token (the regexp rules end at a `\b`; re-run on the match alone they take the same
+branches), so the text kept in a `.float`/`.int` token satisfies `isFloatTok` / is one NUM_INT. -/
+theorem numTok_prefix (b t : List UInt8) :
+    (Martian.Lexer.numTok false b = .float t → isFloatTok t = true) ∧
+    (Martian.Lexer.numTok false b = .int t → Martian.Lexer.numTok false t = .int t) :=
+  ⟨fun h => by simp [isFloatTok, numTok_prefix_float h], fun h => numTok_prefix_int h⟩
+
+/-- non-vacuity: the float token of `1.5.3,` is `1.5`, of `2e5+3` is `2e5`; the int token of
+`007]` is `007` — followed by a byte that is not a terminator of the printer -/
+example :
+    Martian.Lexer.numTok false [0x31, 0x2E, 0x35, 0x2E, 0x33, 0x2C] = .float [0x31, 0x2E, 0x35] ∧
+    Martian.Lexer.numTok false [0x32, 0x65, 0x35, 0x2B, 0x33] = .float [0x32, 0x65, 0x35] ∧
+    Martian.Lexer.numTok false [0x30, 0x30, 0x37, 0x5D] = .int [0x30, 0x30, 0x37] := by decide +kernel
+
+/-- **Range of the reader** (the lemma the round-trip theorems were missing; NO exception
+hypothesis).  For EVERY source text the raw reader accepts, the expression it returns is in
+`wfRaw`: integers fit `int64`; every float leaf is the text of a NUM_FLOAT token; map and struct
+keys are strictly ascending whatever their order and multiplicity in the source (`mkMap`); struct
+keys and reference components are identifiers; references have one of the shapes `X`, `X.a.b`,
+`X.default`, `self.x`, `self.x.a`; and the top level is not a reference (`isVal`). -/
+theorem parse_produces_wfRaw (src : List UInt8) (e : Exp) (h : parseValExp src = some e) :
+    wfRaw e = true ∧ isVal e = true :=
+  parseValExp_range src e h
+
+/-- `GOK` is satisfiable: the identity (a reader that keeps the token text: both clauses hold
+trivially), and the sample `gSample` which does what strconv does on `1e3` (↦ `1000`, a canonical
+integer) and on `-0.0` (↦ `-0`, the third alternative of clause `range`) -/
+theorem gok_instances : GOK id ∧ GOK gSample := ⟨gok_id, gok_gSample⟩
+
+/-- **The parser produces well-formed expressions** — partial: the FULL statement is "for every
+source text `ParseValExp` accepts, the expression it returns satisfies `wf`" (then
+`parse_format_exp` and `format_exp_idem` apply to every accepted text).  The full statement is
+FALSE for the code as it is; the two hypotheses `hs`, `hz` are exactly the recorded findings:
+F6b (`strsValid`: `"\xff"` is accepted and denotes a string that is not valid UTF-8; the printer
+rewrites the byte to U+FFFD — `invalid_byte_not_preserved`, `accepted_text_invalid_utf8` below)
+and F26 (`noNegZero`: `-0.0` is accepted, printed `-0`, read back as the integer 0 —
+`negative_zero_not_wf`, `accepted_text_negative_zero` below).  Everything else the parser can
+return is covered: `g` is any canonicaliser with `GOK g` (what is trusted about strconv). -/
+theorem parse_produces_wf_partial (g : List UInt8 → List UInt8) (hg : GOK g) (src : List UInt8) (e : Exp)
+    (h : parseValExpG g src = some e) (hs : strsValid e = true) (hz : noNegZero e = true) :
+    wf e = true ∧ isVal e = true := by
+  obtain ⟨e0, h0, rfl⟩ := parseValExpG_inv h
+  have ⟨hr, hv0⟩ := parseValExp_range src e0 h0
+  exact ⟨wf_canon g hg e0 hr hs hz, by rw [isVal_canon]; exact hv0⟩
+
+/-- **Formatting preserves every accepted text** — partial in the same sense (hypotheses `hs`, `hz`
+= findings F6b, F26; without them the statement is FALSE for the code as it is, see the two
+negative witnesses below).  For every source text the parser accepts (any spacing, comments, key
+order, duplicate keys, leading zeros, trailing commas, escapes): the formatter's output is
+accepted; it denotes the same expression up to `norm` (an integral float prints without
+`.`/`e` and reads back as an int; `norm` changes nothing else in an expression that was read); the
+output is a fixed point of the formatter; and formatting the re-read expression is accepted again
+with the same result. -/
+theorem format_preserves_accepted_exp_partial (g : List UInt8 → List UInt8) (hg : GOK g)
+    (src : List UInt8) (e : Exp) (h : parseValExpG g src = some e) (hs : strsValid e = true)
+    (hz : noNegZero e = true) :
+    parseValExpG g (fmt [] e) = some (norm e) ∧ fmt [] (norm e) = fmt [] e ∧
+      parseValExpG g (fmt [] (norm e)) = some (norm e) := by
+  obtain ⟨e0, h0, rfl⟩ := parseValExpG_inv h
+  have ⟨hr, hv0⟩ := parseValExp_range src e0 h0
+  have hw := wf_canon g hg e0 hr hs hz
+  have hv : isVal (canon g e0) = true := by rw [isVal_canon]; exact hv0
+  have hfix := canon_norm_fixed g hg e0 hr hw
+  have h1 : parseValExpG g (fmt [] (canon g e0)) = some (norm (canon g e0)) := by
+    simp only [parseValExpG, parse_format_exp _ hw hv, Option.map_some, hfix]
+  refine ⟨h1, fmt_norm _ [] hw, ?_⟩
+  rw [fmt_norm _ [] hw]
+  exact h1
+
+/-- a source text with non-canonical spacing, unsorted and duplicate keys (`"b"`, `"a"` twice: the
+later entry wins), a comment, leading zeros (`007` is the int 7), a float with exponent (`1e3`,
+which Go holds as 1000), escapes, nested empty collections, a struct literal with unsorted fields
+and references, trailing commas -/
+def sampleText : List UInt8 :=
+  ascii "{ \"b\" : 007 ,\"a\":[ ],  # c\n \"b\": [1e3, {}, [[]], -12,\"\\t\\u0041\"], \"a\": 2.5, \"\": {x:{},aa : self.p.q , b:[ X.default,Y.o ]}, }"
+
+/-- non-vacuity: the hypotheses of the two theorems hold for `sampleText` (with `g = gSample`, and
+with `g = id`), and the formatted text is the canonical one -/
+example :
+    (parseValExpG gSample sampleText).map (fun e => (strsValid e, noNegZero e)) = some (true, true) ∧
+    (parseValExpG id sampleText).map (fun e => (strsValid e, noNegZero e)) = some (true, true) ∧
+    (parseValExpG gSample sampleText).map (fmt []) = some (ascii
+      "{\n    \"\": {\n        aa: self.p.q,\n        b: [\n            X.default,\n            Y.o,\n        ],\n        x:  {},\n    },\n    \"a\": 2.5,\n    \"b\": [\n        1000,\n        {},\n        [[]],\n        -12,\n        \"\\tA\",\n    ],\n}") := by
+  set_option maxRecDepth 100000 in decide +kernel
+
+/-- Negative witness F6b on an ACCEPTED TEXT: `"\xff"` is accepted, the string it denotes is the
+single byte FF (`strsValid` fails); the printer writes `"\ufffd"`, which reads back as U+FFFD —
+another string.  So "format preserves every accepted text" is false without `strsValid`. -/
+theorem accepted_text_invalid_utf8 :
+    (match parseValExp (ascii "\"\\xff\"") with
+      | some (.str s) => s == [0xFF] && !strsValid (.str s) && fmt [] (.str s) == ascii "\"\\ufffd\""
+      | _ => false) = true ∧
+    (match parseValExp (ascii "\"\\ufffd\"") with
+      | some (.str s) => s == [0xEF, 0xBF, 0xBD]
+      | _ => false) = true := by
+  set_option maxRecDepth 100000 in decide +kernel
+
+/-- Negative witness F26 on an ACCEPTED TEXT: `-0.0` is accepted; Go holds the float negative
+zero, which prints as `-0` (`noNegZero` fails); `-0` is accepted and is the INTEGER 0, which prints
+as `0`: the formatter's output is not a fixed point and does not denote the same expression.  So
+the statement is false without `noNegZero`. -/
+theorem accepted_text_negative_zero :
+    (match parseValExpG gSample (ascii "-0.0") with
+      | some (.float t) => t == sNegZero && !noNegZero (.float t) && fmt [] (.float t) == ascii "-0"
+      | _ => false) = true ∧
+    (match parseValExpG gSample (ascii "-0") with
+      | some (.int i) => i == 0 && fmt [] (.int i) == ascii "0"
+      | _ => false) = true := by
+  set_option maxRecDepth 100000 in decide +kernel
+
+end AcceptedTexts
 
 end Props.C09
